@@ -102,9 +102,11 @@ class ShortReads:
 
 def render(sym, i, image_len):
   if sym == 'INFO':
-    return 'INFOinfo-%d' % i
+    # every third INFO packet is bare (header only): it is still a packet to forward
+    return 'INFO' if i % 3 == 1 else 'INFOinfo-%d' % i
   if sym == 'OKAY':
-    return 'OKAYok-%d' % i
+    # an OKAY without text is the usual reply of a real bootloader
+    return 'OKAY' if i % 4 == 2 else 'OKAYok-%d' % i
   if sym == 'FAIL':
     # device text with per-cent signs (it must arrive unchanged in the error)
     return 'FAILbad-%d only 40%% free, 100%%d %%s' % i
